@@ -35,6 +35,11 @@ var types = []string{"application/json", "text/plain", "application/xml", "appli
 
 const star = "*/*"
 
+var (
+	opCtxKinds = []string{"nil", "background", "todo", "value", "cancelled"}
+	rtCtxKinds = []string{"nil", "default", "value", "cancelled", "deadline"}
+)
+
 // taggedConsumer is an identity-tagged consumer: the reader reports which one it was handed.
 type taggedConsumer struct{ id string }
 
@@ -46,7 +51,47 @@ func (t *taggedConsumer) Consume(r io.Reader, v interface{}) error {
 	return err
 }
 
-type ctxKey struct{}
+// marker keys: the operation-level and the transport-level context carry different ones
+type opCtxKey struct{}
+type rtCtxKey struct{}
+
+// mkOpCtx / mkRtCtx render the abstract context kinds; the returned func releases timers.
+func mkOpCtx(kind string) (context.Context, func()) {
+	switch kind {
+	case "background":
+		return context.Background(), func() {}
+	case "todo":
+		return context.TODO(), func() {}
+	case "value":
+		return context.WithValue(context.Background(), opCtxKey{}, "op"), func() {}
+	case "cancelled":
+		c, cancel := context.WithCancel(context.WithValue(context.Background(), opCtxKey{}, "op"))
+		cancel()
+		return c, func() {}
+	}
+	return nil, func() {}
+}
+
+func mkRtCtx(kind string) (context.Context, func()) {
+	base := context.WithValue(context.Background(), rtCtxKey{}, "rt")
+	switch kind {
+	case "default":
+		return context.Background(), func() {}
+	case "value":
+		return base, func() {}
+	case "cancelled":
+		c, cancel := context.WithCancel(base)
+		cancel()
+		return c, func() {}
+	case "deadline":
+		c, cancel := context.WithTimeout(base, shortDeadline)
+		return c, cancel
+	}
+	return nil, func() {}
+}
+
+// shortDeadline is "short" compared with client.DefaultTimeout (30 s) yet never fires during a case.
+const shortDeadline = 10 * time.Second
 
 // echoRT answers every request itself: it echoes the request's token and records who was asked.
 type echoRT struct {
@@ -68,12 +113,13 @@ func (e echoRT) RoundTrip(req *http.Request) (*http.Response, error) {
 		_, _ = io.Copy(io.Discard, req.Body)
 		req.Body.Close()
 	}
-	ctxTag, _ := req.Context().Value(ctxKey{}).(string)
-	if ctxTag == "" {
-		ctxTag = "background"
-	}
+	ctx := req.Context()
+	opv, _ := ctx.Value(opCtxKey{}).(string)
+	rtv, _ := ctx.Value(rtCtxKey{}).(string)
+	dl, hasDl := ctx.Deadline()
 	e.mu.Lock()
-	*e.calls = append(*e.calls, M{"client": e.tag, "ctx": ctxTag, "token": token})
+	*e.calls = append(*e.calls, M{"client": e.tag, "token": token, "ctx_op_value": opv == "op", "ctx_rt_value": rtv == "rt",
+		"ctx_err": ctx.Err() != nil, "ctx_short": hasDl && time.Until(dl) < shortDeadline+5*time.Second})
 	e.mu.Unlock()
 	return e.resp(req, token), nil
 }
@@ -109,7 +155,7 @@ func execPick(c *drv.Ctx, d M) bool {
 	hdr := drv.Map(d["header"])
 	form, t := drv.Str(hdr["form"]), drv.Str(hdr["t"])
 	status := drv.Int(d["status"])
-	opClient, opCtx, rtCtx := drv.Bool(d["op_client"]), drv.Bool(d["op_ctx"]), drv.Bool(d["rt_ctx"])
+	opClient, opCtx, rtCtx := drv.Bool(d["op_client"]), drv.Str(d["op_ctx"]), drv.Str(d["rt_ctx"])
 	present, value := renderHeader(form, t, drv.Int(d["variant"]))
 	body := []byte(strings.Repeat("payload-", drv.Int(d["body_len"])))
 
@@ -142,17 +188,17 @@ func execPick(c *drv.Ctx, d M) bool {
 		rt.Consumers[star] = &taggedConsumer{id: star}
 	}
 	rt.DefaultMediaType = drv.Str(d["default"])
-	if rtCtx {
-		rt.Context = context.WithValue(context.Background(), ctxKey{}, "rt")
-	}
+	rctx, rrel := mkRtCtx(rtCtx)
+	defer rrel()
+	rt.Context = rctx // nil for "nil"; New itself leaves context.Background()
 	op := &oaruntime.ClientOperation{ID: "pick", Method: "GET", PathPattern: "/x", Schemes: []string{"http"},
 		ProducesMediaTypes: []string{"application/json"}, ConsumesMediaTypes: []string{"application/json"}}
 	if opClient {
 		op.Client = &http.Client{Transport: opRT}
 	}
-	if opCtx {
-		op.Context = context.WithValue(context.Background(), ctxKey{}, "op")
-	}
+	octx, orel := mkOpCtx(opCtx)
+	defer orel()
+	op.Context = octx
 	op.Params = oaruntime.ClientRequestWriterFunc(func(r oaruntime.ClientRequest, _ strfmt.Registry) error {
 		return r.SetHeaderParam("X-Token", "t1-pick")
 	})
@@ -207,9 +253,15 @@ func execPick(c *drv.Ctx, d M) bool {
 	}
 	mu.Lock()
 	ev["rt_calls"] = len(calls)
-	ev["used_client"], ev["used_ctx"] = "", ""
+	ev["used_client"] = ""
+	for _, k := range []string{"ctx_op_value", "ctx_rt_value", "ctx_err", "ctx_short"} {
+		ev[k] = false
+	}
 	if len(calls) > 0 {
-		ev["used_client"], ev["used_ctx"] = calls[0]["client"], calls[0]["ctx"]
+		ev["used_client"] = calls[0]["client"]
+		for _, k := range []string{"ctx_op_value", "ctx_rt_value", "ctx_err", "ctx_short"} {
+			ev[k] = calls[0][k]
+		}
 	}
 	mu.Unlock()
 	c.W.Event("submit", ev)
@@ -518,7 +570,7 @@ func generate(c *drv.Ctx) {
 					}
 					c.Case(M{"kind": "pick", "registry": reg, "star": st, "default": def,
 						"header": M{"form": h.form, "t": h.t}, "variant": v, "status": statuses[idx%5],
-						"op_client": idx%2 == 1, "op_ctx": (idx/2)%2 == 1, "rt_ctx": (idx/4)%2 == 1,
+						"op_client": idx%2 == 1, "op_ctx": opCtxKinds[(idx/2)%5], "rt_ctx": rtCtxKinds[(idx/10)%5],
 						"rt_client": []string{"transport", "withclient"}[(idx/8)%2], "body_len": idx % 7})
 					idx++
 					npick++
@@ -528,8 +580,8 @@ func generate(c *drv.Ctx) {
 	}
 	// (2) exhaustive: operation-level vs transport-level client/context x status x a few headers
 	for _, oc := range []bool{false, true} {
-		for _, ox := range []bool{false, true} {
-			for _, rx := range []bool{false, true} {
+		for _, ox := range opCtxKinds {
+			for _, rx := range rtCtxKinds {
 				for _, rc := range []string{"transport", "withclient"} {
 					for _, s := range statuses {
 						for _, h := range []hd{{"plain", types[0]}, {"absent", types[0]}, {"params", types[3]}} {
@@ -561,7 +613,7 @@ func generate(c *drv.Ctx) {
 		h := hdrs[c.Rng.Intn(len(hdrs))]
 		c.Case(M{"kind": "pick", "registry": reg, "star": c.Rng.Intn(2) == 0, "default": types[c.Rng.Intn(len(types))],
 			"header": M{"form": h.form, "t": h.t}, "variant": c.Rng.Intn(84), "status": 100 + c.Rng.Intn(500),
-			"op_client": c.Rng.Intn(2) == 0, "op_ctx": c.Rng.Intn(2) == 0, "rt_ctx": c.Rng.Intn(2) == 0,
+			"op_client": c.Rng.Intn(2) == 0, "op_ctx": opCtxKinds[c.Rng.Intn(5)], "rt_ctx": rtCtxKinds[c.Rng.Intn(5)],
 			"rt_client": []string{"transport", "withclient"}[c.Rng.Intn(2)], "body_len": c.Rng.Intn(3000)})
 		npick++
 	}
